@@ -188,6 +188,10 @@ def dump_instance(args):
             rec['Hx_shape'] = [int(code.Hx.shape[0]), int(code.Hx.shape[1])]
             rec['Hz_shape'] = [int(code.Hz.shape[0]), int(code.Hz.shape[1])]
         if dname is not None:
+            import inspect
+            sig = inspect.signature(klass.get_deformation)
+            dflt = sig.parameters['deformation_axis'].default if 'deformation_axis' in sig.parameters else None
+            rec['axis_effective'] = axis or dflt
             rec['deform_dicts'] = []
             for q in qc:
                 d = code.get_deformation(q, dname, **kwargs)
